@@ -115,6 +115,8 @@ class ContractIndex:
                     c.file = path
                     if dname == 'lib':
                         self.lib[target] = c
+                        for other in opts.get('also', []):
+                            self.lib[other] = c
                     else:
                         if target in self.by_target:
                             raise RuntimeError(f'duplicate contract for {target}')
